@@ -6,25 +6,34 @@ package isobmff
 //@ pool readerPool *bufio.Reader
 
 // ---- the box chain ----
-// A box limits what may be read through it; boxes nest through `outer`. The chain is at most 4 deep on every path of the
-// library (ReadMetadata -> meta/moov -> uuid/iprp -> CMTn/ipma/PRVW); that bound is a PRECONDITION proved at every call
-// site, so the chain predicates below can be written unrolled and stay quantifier-free.
+// A box limits what may be read through it; boxes nest through `outer`. The chain is at most 3 boxes long on every path
+// of the library (top-level meta/moov/uuid -> iprp/iref/uuid/PRVW/Exif item -> ipma/CMTn/PRVW); that bound is a
+// PRECONDITION proved at every call site, so the chain predicates below can be written unrolled and stay quantifier-free.
+// wfK(b): b heads a well-formed chain of at most K+1 boxes (acyclic: a consequence of the bounded length, stated
+// explicitly to spare the solver the case analysis).
 //@ spec rdOK(b) = b.reader != nil && b.reader.br != nil && b.remain >= 0
 //@ spec wf0(b) = rdOK(b) && b.outer == nil
-//@ spec wf1(b) = rdOK(b) && (b.outer != nil ==> wf0(b.outer) && b.outer.reader == b.reader)
-//@ spec wf2(b) = rdOK(b) && (b.outer != nil ==> wf1(b.outer) && b.outer.reader == b.reader)
-//@ spec wf3(b) = rdOK(b) && (b.outer != nil ==> wf2(b.outer) && b.outer.reader == b.reader)
-//@ spec wf4(b) = rdOK(b) && (b.outer != nil ==> wf3(b.outer) && b.outer.reader == b.reader)
+//@ spec wf1(b) = rdOK(b) && (b.outer != nil ==> wf0(b.outer) && b.outer.reader == b.reader) && b.outer != b
+//@ spec wf2(b) = rdOK(b) && (b.outer != nil ==> wf1(b.outer) && b.outer.reader == b.reader) && b.outer != b && b.outer.outer != b
 // the chain without the innermost remaining length (an Exif item box takes its length from an untrusted 64-bit field)
-//@ spec chOK(b) = b.reader != nil && b.reader.br != nil && (b.outer != nil ==> wf3(b.outer) && b.outer.reader == b.reader)
-// chain length (for the termination of the recursive Peek/Discard/adjust)
+//@ spec chOK(b) = b.reader != nil && b.reader.br != nil && (b.outer != nil ==> wf1(b.outer) && b.outer.reader == b.reader) && b.outer != b && b.outer.outer != b
+// chain length (for the termination of the recursive Peek/Discard/adjust/fits)
 //@ spec clen1(b) = ite(b.outer == nil, 0, 1)
 //@ spec clen2(b) = ite(b.outer == nil, 0, 1 + clen1(b.outer))
-//@ spec clen3(b) = ite(b.outer == nil, 0, 1 + clen2(b.outer))
-//@ spec clen4(b) = ite(b.outer == nil, 0, 1 + clen3(b.outer))
 
+// remaining lengths along the chain stay non-negative (the part of wfK that a callee can change)
+//@ spec remOK(b) = b.remain >= 0 && (b.outer != nil ==> b.outer.remain >= 0 && (b.outer.outer != nil ==> b.outer.outer.remain >= 0))
 // remaining lengths along the chain never grow
-//@ spec noInc(b) = b.remain <= old(b.remain) && (b.outer != nil ==> b.outer.remain <= old(b.outer.remain) && (b.outer.outer != nil ==> b.outer.outer.remain <= old(b.outer.outer.remain) && (b.outer.outer.outer != nil ==> b.outer.outer.outer.remain <= old(b.outer.outer.outer.remain) && (b.outer.outer.outer.outer != nil ==> b.outer.outer.outer.outer.remain <= old(b.outer.outer.outer.outer.remain)))))
+//@ spec noInc(b) = b.remain <= old(b.remain) && (b.outer != nil ==> b.outer.remain <= old(b.outer.remain) && (b.outer.outer != nil ==> b.outer.outer.remain <= old(b.outer.outer.remain)))
+// C11 containment: "the end of a box never moves outwards" - position + remaining length never grows, for the box and
+// every box around it. With remOK (all remaining lengths >= 0) nothing is ever read past the declared end of the box or
+// of any box around it. (The unsigned sum cannot wrap: 0 <= pos <= 2^62 and 0 <= remain < 2^63.)
+//@ spec lvl(a, r) = uint64(pos(r.br)) + uint64(a.remain) <= old(uint64(pos(r.br)) + uint64(a.remain))
+//@ spec charged(b) = lvl(b, b.reader) && (b.outer != nil ==> lvl(b.outer, b.reader) && (b.outer.outer != nil ==> lvl(b.outer.outer, b.reader)))
+// n more bytes fit into the box and into every box around it
+//@ spec allFit(b, n) = b.remain >= n && (b.outer != nil ==> b.outer.remain >= n && (b.outer.outer != nil ==> b.outer.outer.remain >= n))
+// every box of the chain was charged exactly n
+//@ spec chargedBy(b, n) = b.remain == old(b.remain) - n && (b.outer != nil ==> b.outer.remain == old(b.outer.remain) - n && (b.outer.outer != nil ==> b.outer.outer.remain == old(b.outer.outer.remain) - n))
 
 //@ func (*Reader).peek
 //@   props C01 C02 C11
@@ -46,12 +55,12 @@ package isobmff
 
 //@ func (*box).Peek
 //@   props C01 C02 C11
-//@   requires wf4(b)
+//@   requires wf2(b)
 //@   modifies stream(b.reader.br)
 //@   view r0
-//@   decreases clen4(b)
+//@   decreases clen2(b)
 //@   ensures pos(b.reader.br) == old(pos(b.reader.br))
-//@   ensures [C11] r1 == nil ==> len(r0) == n && n >= 0 && n <= b.remain
+//@   ensures [C11] r1 == nil ==> len(r0) == n && n >= 0 && allFit(b, n)
 //@   ensures r1 != nil ==> len(r0) < n || n < 0 || len(r0) == 0
 //@   ensures r1 == nil ==> arr(r0) == sid(b.reader.br) && off(r0) == pos(b.reader.br)
 //@   ensures cap(r0) >= len(r0) && len(r0) >= 0
@@ -59,40 +68,38 @@ package isobmff
 //@ func (*box).Discard
 //@   props C01 C02 C11
 //@   requires chOK(b) && n >= 0
-//@   modifies stream(b.reader.br), b.remain, b.outer.remain, b.outer.outer.remain, b.outer.outer.outer.remain, b.outer.outer.outer.outer.remain, b.reader.offset
-//@   decreases clen4(b)
+//@   modifies stream(b.reader.br), b.remain, b.outer.remain, b.outer.outer.remain, b.reader.offset
+//@   decreases clen2(b)
 //@   ensures 0 <= r0 && r0 <= n && pos(b.reader.br) == old(pos(b.reader.br)) + r0
 //@   ensures r1 == nil ==> r0 == n
-//@   ensures [C11] r0 > 0 ==> old(b.remain) >= n
+//@   ensures [C11] r0 > 0 ==> old(allFit(b, n))
+//@   ensures [C11] old(allFit(b, n)) ==> chargedBy(b, n)
 //@   ensures [C11] b.remain == ite(old(b.remain) >= n, old(b.remain) - n, old(b.remain))
-//@   ensures [C11] r0 > 0 && b.outer != nil ==> old(b.outer.remain) >= n && b.outer.remain == old(b.outer.remain) - n
-//@   ensures [C11] r0 > 0 && b.outer != nil && b.outer.outer != nil ==> old(b.outer.outer.remain) >= n && b.outer.outer.remain == old(b.outer.outer.remain) - n
-//@   ensures chOK(b) && (old(b.remain) >= 0 ==> wf4(b))
-//@   ensures noInc(b)
+//@   ensures chOK(b) && (old(b.remain) >= 0 ==> wf2(b))
+//@   uses end_mono(old(pos(b.reader.br)), r0, old(b.remain), n)
+//@   ensures noInc(b) && charged(b)
 
 //@ func (*box).close
 //@   props C01 C02 C11
-//@   requires wf4(b)
-//@   modifies stream(b.reader.br), b.remain, b.outer.remain, b.outer.outer.remain, b.outer.outer.outer.remain, b.outer.outer.outer.outer.remain, b.reader.offset
+//@   requires wf2(b)
+//@   modifies stream(b.reader.br), b.remain, b.outer.remain, b.outer.outer.remain, b.reader.offset
 //@   ensures [C11] r0 == nil ==> b.remain == 0 && pos(b.reader.br) == old(pos(b.reader.br)) + old(b.remain)
 //@   ensures pos(b.reader.br) >= old(pos(b.reader.br))
-//@   ensures wf4(b)
-//@   ensures noInc(b)
+//@   ensures wf2(b)
+//@   ensures noInc(b) && charged(b)
 
-// remaining lengths along the chain stay non-negative (the part of wfK that a callee can change)
-//@ spec remOK(b) = b.remain >= 0 && (b.outer != nil ==> b.outer.remain >= 0 && (b.outer.outer != nil ==> b.outer.outer.remain >= 0 && (b.outer.outer.outer != nil ==> b.outer.outer.outer.remain >= 0 && (b.outer.outer.outer.outer != nil ==> b.outer.outer.outer.outer.remain >= 0))))
 
 // C11: a child box is framed by its 32-bit size (or 64-bit size after the type when the 32-bit field is 1); on success
 // the parent has been charged the header bytes, the child is linked to the parent and limits reads to its declared size.
 //@ func (*box).readInnerBox
 //@   props C01 C02 C11
-//@   requires wf3(b)
-//@   modifies stream(b.reader.br), b.remain, b.outer.remain, b.outer.outer.remain, b.outer.outer.outer.remain, b.outer.outer.outer.outer.remain, b.reader.offset
+//@   requires wf1(b)
+//@   modifies stream(b.reader.br), b.remain, b.outer.remain, b.outer.outer.remain, b.reader.offset
 //@   ensures remOK(b) && pos(b.reader.br) >= old(pos(b.reader.br))
 //@   ensures [C11] next ==> inner.outer == b && inner.reader == b.reader && inner.remain >= 0 && inner.remain <= int(inner.size)
 //@   ensures [C02 C11] next && err == nil ==> b.remain <= old(b.remain) - 8 && pos(b.reader.br) >= old(pos(b.reader.br)) + 8
 //@   ensures [C11] !next ==> b.remain == old(b.remain) && pos(b.reader.br) == old(pos(b.reader.br))
-//@   ensures noInc(b)
+//@   ensures noInc(b) && charged(b)
 
 //@ func (*Reader).readBox
 //@   props C01 C02 C11
@@ -103,24 +110,24 @@ package isobmff
 
 //@ func (*box).readUint16
 //@   props C01 C02 C11
-//@   requires wf4(b)
-//@   modifies stream(b.reader.br), b.remain, b.outer.remain, b.outer.outer.remain, b.outer.outer.outer.remain, b.outer.outer.outer.outer.remain, b.reader.offset
+//@   requires wf2(b)
+//@   modifies stream(b.reader.br), b.remain, b.outer.remain, b.outer.outer.remain, b.reader.offset
 //@   ensures remOK(b) && pos(b.reader.br) >= old(pos(b.reader.br)) 
-//@   ensures noInc(b)
+//@   ensures noInc(b) && charged(b)
 
 //@ func (*box).readUUID
 //@   props C01 C02 C11
-//@   requires wf4(b)
-//@   modifies stream(b.reader.br), b.remain, b.outer.remain, b.outer.outer.remain, b.outer.outer.outer.remain, b.outer.outer.outer.outer.remain, b.reader.offset
+//@   requires wf2(b)
+//@   modifies stream(b.reader.br), b.remain, b.outer.remain, b.outer.outer.remain, b.reader.offset
 //@   ensures remOK(b) && pos(b.reader.br) >= old(pos(b.reader.br)) 
-//@   ensures noInc(b)
+//@   ensures noInc(b) && charged(b)
 
 //@ func (*box).readFlags
 //@   props C01 C02 C11
-//@   requires wf4(b)
-//@   modifies stream(b.reader.br), b.remain, b.outer.remain, b.outer.outer.remain, b.outer.outer.outer.remain, b.outer.outer.outer.outer.remain, b.reader.offset, b.flags
+//@   requires wf2(b)
+//@   modifies stream(b.reader.br), b.remain, b.outer.remain, b.outer.outer.remain, b.reader.offset, b.flags
 //@   ensures remOK(b) && pos(b.reader.br) >= old(pos(b.reader.br)) 
-//@   ensures noInc(b)
+//@   ensures noInc(b) && charged(b)
 
 //@ func (*box).readFlagsFromBuf
 //@   props C01
@@ -210,110 +217,119 @@ package isobmff
 
 //@ func (*box).adjust
 //@   props C01 C02
-//@   requires wf4(b)
-//@   modifies b.remain, b.outer.remain, b.outer.outer.remain, b.outer.outer.outer.remain, b.outer.outer.outer.outer.remain, b.reader.offset
-//@   ensures remOK(b) && pos(b.reader.br) >= old(pos(b.reader.br)) && noInc(b)
+//@   requires wf2(b)
+//@   modifies b.remain, b.outer.remain, b.outer.outer.remain, b.reader.offset
+//@   ensures remOK(b) && b.remain <= old(b.remain)
+//@   ensures [C11] old(allFit(b, n)) ==> chargedBy(b, n)
 //@   requires n >= 0
-//@   decreases clen4(b)
+//@   decreases clen2(b)
+
+//@ func (*box).fits
+//@   props C01 C02 C11
+//@   requires wf2(b)
+//@   pure
+//@   decreases clen2(b)
+//@   ensures [C11] r0 == allFit(b, n)
 
 
 //@ func (*box).Read
 //@   props C01 C02 C11
-//@   requires wf4(b)
-//@   modifies stream(b.reader.br), b.remain, b.outer.remain, b.outer.outer.remain, b.outer.outer.outer.remain, b.outer.outer.outer.outer.remain, b.reader.offset, mem(p)
-//@   ensures remOK(b) && pos(b.reader.br) >= old(pos(b.reader.br)) && noInc(b)
+//@   requires wf2(b)
+//@   modifies stream(b.reader.br), b.remain, b.outer.remain, b.outer.outer.remain, b.reader.offset, mem(p)
+//@   ensures remOK(b) && pos(b.reader.br) >= old(pos(b.reader.br)) && noInc(b) && charged(b)
 //@   ensures 0 <= n && n <= len(p)
+//@   uses end_mono(old(pos(b.reader.br)), n, old(b.remain), n); end_mono(old(pos(b.reader.br)), n, old(b.outer.remain), n); end_mono(old(pos(b.reader.br)), n, old(b.outer.outer.remain), n)
 
 
 //@ func parseFileTypeBox
 //@   props C01 C02 C11
-//@   requires wf4(b)
-//@   modifies stream(b.reader.br), b.remain, b.outer.remain, b.outer.outer.remain, b.outer.outer.outer.remain, b.outer.outer.outer.outer.remain, b.reader.offset
-//@   ensures remOK(b) && pos(b.reader.br) >= old(pos(b.reader.br)) && noInc(b)
+//@   requires wf2(b)
+//@   modifies stream(b.reader.br), b.remain, b.outer.remain, b.outer.outer.remain, b.reader.offset
+//@   ensures remOK(b) && pos(b.reader.br) >= old(pos(b.reader.br)) && noInc(b) && charged(b)
 
 
 //@ func readCNCVBox
 //@   props C01 C02 C11
-//@   requires wf4(b)
-//@   modifies stream(b.reader.br), b.remain, b.outer.remain, b.outer.outer.remain, b.outer.outer.outer.remain, b.outer.outer.outer.outer.remain, b.reader.offset
-//@   ensures remOK(b) && pos(b.reader.br) >= old(pos(b.reader.br)) && noInc(b)
+//@   requires wf2(b)
+//@   modifies stream(b.reader.br), b.remain, b.outer.remain, b.outer.outer.remain, b.reader.offset
+//@   ensures remOK(b) && pos(b.reader.br) >= old(pos(b.reader.br)) && noInc(b) && charged(b)
 
 
 //@ func readCTBOBox
 //@   props C01 C02 C11
-//@   requires wf4(b)
-//@   modifies stream(b.reader.br), b.remain, b.outer.remain, b.outer.outer.remain, b.outer.outer.outer.remain, b.outer.outer.outer.outer.remain, b.reader.offset
-//@   ensures remOK(b) && pos(b.reader.br) >= old(pos(b.reader.br)) && noInc(b)
+//@   requires wf2(b)
+//@   modifies stream(b.reader.br), b.remain, b.outer.remain, b.outer.outer.remain, b.reader.offset
+//@   ensures remOK(b) && pos(b.reader.br) >= old(pos(b.reader.br)) && noInc(b) && charged(b)
 
 
 //@ func readCrxTrakBox
 //@   props C01 C02 C11
-//@   requires wf4(b)
-//@   modifies stream(b.reader.br), b.remain, b.outer.remain, b.outer.outer.remain, b.outer.outer.outer.remain, b.outer.outer.outer.outer.remain, b.reader.offset
-//@   ensures remOK(b) && pos(b.reader.br) >= old(pos(b.reader.br)) && noInc(b)
+//@   requires wf2(b)
+//@   modifies stream(b.reader.br), b.remain, b.outer.remain, b.outer.outer.remain, b.reader.offset
+//@   ensures remOK(b) && pos(b.reader.br) >= old(pos(b.reader.br)) && noInc(b) && charged(b)
 
 
 //@ func readPitm
 //@   props C01 C02 C11
-//@   requires wf4(b)
-//@   modifies stream(b.reader.br), b.remain, b.outer.remain, b.outer.outer.remain, b.outer.outer.outer.remain, b.outer.outer.outer.outer.remain, b.reader.offset, b.flags
-//@   ensures remOK(b) && pos(b.reader.br) >= old(pos(b.reader.br)) && noInc(b)
+//@   requires wf2(b)
+//@   modifies stream(b.reader.br), b.remain, b.outer.remain, b.outer.outer.remain, b.reader.offset, b.flags
+//@   ensures remOK(b) && pos(b.reader.br) >= old(pos(b.reader.br)) && noInc(b) && charged(b)
 
 
 //@ func readIdat
 //@   props C01 C02 C11
-//@   requires wf4(b)
-//@   modifies stream(b.reader.br), b.remain, b.outer.remain, b.outer.outer.remain, b.outer.outer.outer.remain, b.outer.outer.outer.outer.remain, b.reader.offset
-//@   ensures remOK(b) && pos(b.reader.br) >= old(pos(b.reader.br)) && noInc(b)
+//@   requires wf2(b)
+//@   modifies stream(b.reader.br), b.remain, b.outer.remain, b.outer.outer.remain, b.reader.offset
+//@   ensures remOK(b) && pos(b.reader.br) >= old(pos(b.reader.br)) && noInc(b) && charged(b)
 
 
 //@ func readHdlr
 //@   props C01 C02 C11
-//@   requires wf4(b)
-//@   modifies stream(b.reader.br), b.remain, b.outer.remain, b.outer.outer.remain, b.outer.outer.outer.remain, b.outer.outer.outer.outer.remain, b.reader.offset, b.flags
-//@   ensures remOK(b) && pos(b.reader.br) >= old(pos(b.reader.br)) && noInc(b)
+//@   requires wf2(b)
+//@   modifies stream(b.reader.br), b.remain, b.outer.remain, b.outer.outer.remain, b.reader.offset, b.flags
+//@   ensures remOK(b) && pos(b.reader.br) >= old(pos(b.reader.br)) && noInc(b) && charged(b)
 
 
 //@ func readIpma
 //@   props C01 C02 C11
-//@   requires wf4(b)
-//@   modifies stream(b.reader.br), b.remain, b.outer.remain, b.outer.outer.remain, b.outer.outer.outer.remain, b.outer.outer.outer.outer.remain, b.reader.offset, b.flags
-//@   ensures remOK(b) && pos(b.reader.br) >= old(pos(b.reader.br)) && noInc(b)
+//@   requires wf2(b)
+//@   modifies stream(b.reader.br), b.remain, b.outer.remain, b.outer.outer.remain, b.reader.offset, b.flags
+//@   ensures remOK(b) && pos(b.reader.br) >= old(pos(b.reader.br)) && noInc(b) && charged(b)
 
 
 //@ func readIpco
 //@   props C01 C02 C11
-//@   requires wf4(b)
-//@   modifies stream(b.reader.br), b.remain, b.outer.remain, b.outer.outer.remain, b.outer.outer.outer.remain, b.outer.outer.outer.outer.remain, b.reader.offset
-//@   ensures remOK(b) && pos(b.reader.br) >= old(pos(b.reader.br)) && noInc(b)
+//@   requires wf2(b)
+//@   modifies stream(b.reader.br), b.remain, b.outer.remain, b.outer.outer.remain, b.reader.offset
+//@   ensures remOK(b) && pos(b.reader.br) >= old(pos(b.reader.br)) && noInc(b) && charged(b)
 
 
 //@ func readIlocHeader
 //@   props C01 C02 C11
-//@   requires wf4(b)
-//@   modifies stream(b.reader.br), b.remain, b.outer.remain, b.outer.outer.remain, b.outer.outer.outer.remain, b.outer.outer.outer.outer.remain, b.reader.offset, b.flags
-//@   ensures remOK(b) && pos(b.reader.br) >= old(pos(b.reader.br)) && noInc(b)
+//@   requires wf2(b)
+//@   modifies stream(b.reader.br), b.remain, b.outer.remain, b.outer.outer.remain, b.reader.offset, b.flags
+//@   ensures remOK(b) && pos(b.reader.br) >= old(pos(b.reader.br)) && noInc(b) && charged(b)
 
 
 //@ func readExifHeader
 //@   props C01 C02 C11
-//@   requires wf4(b)
-//@   modifies stream(b.reader.br), b.remain, b.outer.remain, b.outer.outer.remain, b.outer.outer.outer.remain, b.outer.outer.outer.outer.remain, b.reader.offset
-//@   ensures remOK(b) && pos(b.reader.br) >= old(pos(b.reader.br)) && noInc(b)
+//@   requires wf2(b)
+//@   modifies stream(b.reader.br), b.remain, b.outer.remain, b.outer.outer.remain, b.reader.offset
+//@   ensures remOK(b) && pos(b.reader.br) >= old(pos(b.reader.br)) && noInc(b) && charged(b)
 
 
 //@ func parsePreviewBox
 //@   props C01 C02 C11
-//@   requires wf4(b)
-//@   modifies stream(b.reader.br), b.remain, b.outer.remain, b.outer.outer.remain, b.outer.outer.outer.remain, b.outer.outer.outer.outer.remain, b.reader.offset
-//@   ensures remOK(b) && pos(b.reader.br) >= old(pos(b.reader.br)) && noInc(b)
+//@   requires wf2(b)
+//@   modifies stream(b.reader.br), b.remain, b.outer.remain, b.outer.outer.remain, b.reader.offset
+//@   ensures remOK(b) && pos(b.reader.br) >= old(pos(b.reader.br)) && noInc(b) && charged(b)
 
 
 //@ func (*Reader).readIloc
 //@   props C01 C02 C11
-//@   requires wf4(b)
-//@   modifies stream(b.reader.br), b.remain, b.outer.remain, b.outer.outer.remain, b.outer.outer.outer.remain, b.outer.outer.outer.outer.remain, b.reader.offset, b.flags, r.heic
-//@   ensures remOK(b) && pos(b.reader.br) >= old(pos(b.reader.br)) && noInc(b)
+//@   requires wf2(b)
+//@   modifies stream(b.reader.br), b.remain, b.outer.remain, b.outer.outer.remain, b.reader.offset, b.flags, r.heic
+//@   ensures remOK(b) && pos(b.reader.br) >= old(pos(b.reader.br)) && noInc(b) && charged(b)
 //@   loop 0 invariant 0 <= i
 //@   loop 0 decreases len(buf) - i
 //@   loop 1 invariant 0 <= i && 0 <= j
@@ -322,121 +338,121 @@ package isobmff
 
 //@ func (*Reader).readInfe
 //@   props C01 C02 C11
-//@   requires wf4(b)
-//@   modifies stream(b.reader.br), b.remain, b.outer.remain, b.outer.outer.remain, b.outer.outer.outer.remain, b.outer.outer.outer.outer.remain, b.reader.offset, r.heic
-//@   ensures remOK(b) && pos(b.reader.br) >= old(pos(b.reader.br)) && noInc(b)
+//@   requires wf2(b)
+//@   modifies stream(b.reader.br), b.remain, b.outer.remain, b.outer.outer.remain, b.reader.offset, r.heic
+//@   ensures remOK(b) && pos(b.reader.br) >= old(pos(b.reader.br)) && noInc(b) && charged(b)
 //@   loop 0 invariant 0 <= i
 //@   loop 0 decreases len(buf) - i
 
 
 //@ func (*Reader).readIinf
 //@   props C01 C02 C11
-//@   requires wf4(b)
-//@   modifies stream(b.reader.br), b.remain, b.outer.remain, b.outer.outer.remain, b.outer.outer.outer.remain, b.outer.outer.outer.outer.remain, b.reader.offset, b.flags, r.heic
-//@   ensures remOK(b) && pos(b.reader.br) >= old(pos(b.reader.br)) && noInc(b)
+//@   requires wf2(b)
+//@   modifies stream(b.reader.br), b.remain, b.outer.remain, b.outer.outer.remain, b.reader.offset, b.flags, r.heic
+//@   ensures remOK(b) && pos(b.reader.br) >= old(pos(b.reader.br)) && noInc(b) && charged(b)
 
 
 //@ func readIprp
 //@   props C01 C02 C11
-//@   requires wf2(b)
-//@   modifies stream(b.reader.br), b.remain, b.outer.remain, b.outer.outer.remain, b.outer.outer.outer.remain, b.outer.outer.outer.outer.remain, b.reader.offset, box.flags
-//@   ensures remOK(b) && pos(b.reader.br) >= old(pos(b.reader.br)) && noInc(b)
-//@   loop 0 invariant remOK(b) && pos(b.reader.br) >= old(pos(b.reader.br)) && noInc(b)
+//@   requires wf1(b)
+//@   modifies stream(b.reader.br), b.remain, b.outer.remain, b.outer.outer.remain, b.reader.offset, box.flags
+//@   ensures remOK(b) && pos(b.reader.br) >= old(pos(b.reader.br)) && noInc(b) && charged(b)
+//@   loop 0 invariant remOK(b) && pos(b.reader.br) >= old(pos(b.reader.br)) && noInc(b) && charged(b)
 //@   loop 0 invariant ok && err == nil ==> inner.outer == b && inner.reader == b.reader && inner.remain >= 0
 //@   loop 0 decreases ite(ok && err == nil, 1, 0), b.remain
 
 
 //@ func readIref
 //@   props C01 C02 C11
-//@   requires wf2(b)
-//@   modifies stream(b.reader.br), b.remain, b.outer.remain, b.outer.outer.remain, b.outer.outer.outer.remain, b.outer.outer.outer.outer.remain, b.reader.offset, b.flags
-//@   ensures remOK(b) && pos(b.reader.br) >= old(pos(b.reader.br)) && noInc(b)
-//@   loop 0 invariant remOK(b) && pos(b.reader.br) >= old(pos(b.reader.br)) && noInc(b)
+//@   requires wf1(b)
+//@   modifies stream(b.reader.br), b.remain, b.outer.remain, b.outer.outer.remain, b.reader.offset, b.flags
+//@   ensures remOK(b) && pos(b.reader.br) >= old(pos(b.reader.br)) && noInc(b) && charged(b)
+//@   loop 0 invariant remOK(b) && pos(b.reader.br) >= old(pos(b.reader.br)) && noInc(b) && charged(b)
 //@   loop 0 invariant ok && err == nil ==> inner.outer == b && inner.reader == b.reader && inner.remain >= 0
 //@   loop 0 decreases ite(ok && err == nil, 1, 0), b.remain
 
 
 //@ func readCMTBox
 //@   props C01 C02 C11
-//@   requires wf3(b)
-//@   modifies stream(b.reader.br), b.remain, b.outer.remain, b.outer.outer.remain, b.outer.outer.outer.remain, b.outer.outer.outer.outer.remain, b.reader.offset
-//@   ensures remOK(b) && pos(b.reader.br) >= old(pos(b.reader.br)) && noInc(b)
+//@   requires wf2(b)
+//@   modifies stream(b.reader.br), b.remain, b.outer.remain, b.outer.outer.remain, b.reader.offset
+//@   ensures remOK(b) && pos(b.reader.br) >= old(pos(b.reader.br)) && noInc(b) && charged(b)
 
 
 //@ func readCrxMoovBox
 //@   props C01 C02 C11
-//@   requires wf2(b)
-//@   modifies stream(b.reader.br), b.remain, b.outer.remain, b.outer.outer.remain, b.outer.outer.outer.remain, b.outer.outer.outer.outer.remain, b.reader.offset
-//@   ensures remOK(b) && pos(b.reader.br) >= old(pos(b.reader.br)) && noInc(b)
-//@   loop 0 invariant remOK(b) && pos(b.reader.br) >= old(pos(b.reader.br)) && noInc(b)
+//@   requires wf1(b)
+//@   modifies stream(b.reader.br), b.remain, b.outer.remain, b.outer.outer.remain, b.reader.offset
+//@   ensures remOK(b) && pos(b.reader.br) >= old(pos(b.reader.br)) && noInc(b) && charged(b)
+//@   loop 0 invariant remOK(b) && pos(b.reader.br) >= old(pos(b.reader.br)) && noInc(b) && charged(b)
 //@   loop 0 invariant ok && err == nil ==> inner.outer == b && inner.reader == b.reader && inner.remain >= 0
 //@   loop 0 decreases ite(ok && err == nil, 1, 0), b.remain
 
 
 //@ func (*Reader).createPRVWBox
 //@   props C01 C02 C11
-//@   requires wf2(b)
-//@   modifies stream(b.reader.br), b.remain, b.outer.remain, b.outer.outer.remain, b.outer.outer.outer.remain, b.outer.outer.outer.outer.remain, b.reader.offset
-//@   ensures remOK(b) && pos(b.reader.br) >= old(pos(b.reader.br)) && noInc(b)
+//@   requires wf1(b)
+//@   modifies stream(b.reader.br), b.remain, b.outer.remain, b.outer.outer.remain, b.reader.offset
+//@   ensures remOK(b) && pos(b.reader.br) >= old(pos(b.reader.br)) && noInc(b) && charged(b)
 //@   ensures err == nil ==> inner.outer == b && inner.reader == b.reader && inner.remain >= 0
 
 
 //@ func (*Reader).readPreview
 //@   props C01 C02 C11
-//@   requires wf2(b)
-//@   modifies stream(b.reader.br), b.remain, b.outer.remain, b.outer.outer.remain, b.outer.outer.outer.remain, b.outer.outer.outer.outer.remain, b.reader.offset, r.prvw
-//@   ensures remOK(b) && pos(b.reader.br) >= old(pos(b.reader.br)) && noInc(b)
+//@   requires wf1(b)
+//@   modifies stream(b.reader.br), b.remain, b.outer.remain, b.outer.outer.remain, b.reader.offset, r.prvw
+//@   ensures remOK(b) && pos(b.reader.br) >= old(pos(b.reader.br)) && noInc(b) && charged(b)
 
 
 //@ func (*Reader).readUUIDBox
 //@   props C01 C02 C11
-//@   requires wf2(b)
-//@   modifies stream(b.reader.br), b.remain, b.outer.remain, b.outer.outer.remain, b.outer.outer.outer.remain, b.outer.outer.outer.outer.remain, b.reader.offset, r.prvw
-//@   ensures remOK(b) && pos(b.reader.br) >= old(pos(b.reader.br)) && noInc(b)
+//@   requires wf1(b)
+//@   modifies stream(b.reader.br), b.remain, b.outer.remain, b.outer.outer.remain, b.reader.offset, r.prvw
+//@   ensures remOK(b) && pos(b.reader.br) >= old(pos(b.reader.br)) && noInc(b) && charged(b)
 
 
 //@ func (*Reader).readMeta
 //@   props C01 C02 C11
-//@   requires wf1(b)
-//@   modifies stream(b.reader.br), b.remain, b.outer.remain, b.outer.outer.remain, b.outer.outer.outer.remain, b.outer.outer.outer.outer.remain, b.reader.offset, box.flags, r.heic, r.prvw
-//@   ensures remOK(b) && pos(b.reader.br) >= old(pos(b.reader.br)) && noInc(b)
-//@   loop 0 invariant remOK(b) && pos(b.reader.br) >= old(pos(b.reader.br)) && noInc(b)
+//@   requires wf0(b)
+//@   modifies stream(b.reader.br), b.remain, b.outer.remain, b.outer.outer.remain, b.reader.offset, box.flags, r.heic, r.prvw
+//@   ensures remOK(b) && pos(b.reader.br) >= old(pos(b.reader.br)) && noInc(b) && charged(b)
+//@   loop 0 invariant remOK(b) && pos(b.reader.br) >= old(pos(b.reader.br)) && noInc(b) && charged(b)
 //@   loop 0 invariant ok && err == nil ==> inner.outer == b && inner.reader == b.reader && inner.remain >= 0
 //@   loop 0 decreases ite(ok && err == nil, 1, 0), b.remain
 
 
 //@ func (*Reader).readMoovBox
 //@   props C01 C02 C11
-//@   requires wf1(b)
-//@   modifies stream(b.reader.br), b.remain, b.outer.remain, b.outer.outer.remain, b.outer.outer.outer.remain, b.outer.outer.outer.outer.remain, b.reader.offset, r.prvw
-//@   ensures remOK(b) && pos(b.reader.br) >= old(pos(b.reader.br)) && noInc(b)
-//@   loop 0 invariant remOK(b) && pos(b.reader.br) >= old(pos(b.reader.br)) && noInc(b)
+//@   requires wf0(b)
+//@   modifies stream(b.reader.br), b.remain, b.outer.remain, b.outer.outer.remain, b.reader.offset, r.prvw
+//@   ensures remOK(b) && pos(b.reader.br) >= old(pos(b.reader.br)) && noInc(b) && charged(b)
+//@   loop 0 invariant remOK(b) && pos(b.reader.br) >= old(pos(b.reader.br)) && noInc(b) && charged(b)
 //@   loop 0 invariant ok && err == nil ==> inner.outer == b && inner.reader == b.reader && inner.remain >= 0
 //@   loop 0 decreases ite(ok && err == nil, 1, 0), b.remain
 
 
 //@ func (*Reader).newExifBox
 //@   props C01 C02 C11
-//@   requires wf3(b)
-//@   modifies stream(b.reader.br), b.remain, b.outer.remain, b.outer.outer.remain, b.outer.outer.outer.remain, b.outer.outer.outer.outer.remain, b.reader.offset
-//@   ensures remOK(b) && pos(b.reader.br) >= old(pos(b.reader.br)) && noInc(b)
+//@   requires wf1(b)
+//@   modifies stream(b.reader.br), b.remain, b.outer.remain, b.outer.outer.remain, b.reader.offset
+//@   ensures remOK(b) && pos(b.reader.br) >= old(pos(b.reader.br)) && noInc(b) && charged(b)
 //@   ensures err == nil ==> inner.outer == b && inner.reader == b.reader && inner.remain >= 0
 
 
 //@ func (*Reader).readMdat
 //@   props C01 C02 C11
-//@   requires wf2(b)
-//@   modifies stream(b.reader.br), b.remain, b.outer.remain, b.outer.outer.remain, b.outer.outer.outer.remain, b.outer.outer.outer.outer.remain, b.reader.offset
-//@   ensures remOK(b) && pos(b.reader.br) >= old(pos(b.reader.br)) && noInc(b)
+//@   requires wf1(b)
+//@   modifies stream(b.reader.br), b.remain, b.outer.remain, b.outer.outer.remain, b.reader.offset
+//@   ensures remOK(b) && pos(b.reader.br) >= old(pos(b.reader.br)) && noInc(b) && charged(b)
 
 
 // Callbacks receive a box as their reader. ASSUMED: a callback acts on it only through the box's own Peek/Discard/Read
 // (whose contracts keep the chain intact) - that is what the library's Exif reader, XMP parser and preview renderer do.
 //@ dep callback isobmff.Reader.ExifReader
 //@   names r h -> err
-//@   requires [C11] wf4(as(r, "*isobmff.box"))
-//@   modifies stream(as(r, "*isobmff.box").reader.br), as(r, "*isobmff.box").remain, as(r, "*isobmff.box").outer.remain, as(r, "*isobmff.box").outer.outer.remain, as(r, "*isobmff.box").outer.outer.outer.remain, as(r, "*isobmff.box").outer.outer.outer.outer.remain, as(r, "*isobmff.box").reader.offset
-//@   ensures remOK(as(r, "*isobmff.box")) && pos(as(r, "*isobmff.box").reader.br) >= old(pos(as(r, "*isobmff.box").reader.br)) && noInc(as(r, "*isobmff.box"))
+//@   requires [C11] wf2(as(r, "*isobmff.box"))
+//@   modifies stream(as(r, "*isobmff.box").reader.br), as(r, "*isobmff.box").remain, as(r, "*isobmff.box").outer.remain, as(r, "*isobmff.box").outer.outer.remain, as(r, "*isobmff.box").reader.offset
+//@   ensures remOK(as(r, "*isobmff.box")) && pos(as(r, "*isobmff.box").reader.br) >= old(pos(as(r, "*isobmff.box").reader.br)) && noInc(as(r, "*isobmff.box")) && charged(as(r, "*isobmff.box"))
 
 // the CR3 readers receive Reader.ExifReader as a parameter and pass it on unchanged
 //@ dep callback isobmff.readCMTBox.exifReader = isobmff.Reader.ExifReader
@@ -444,15 +460,15 @@ package isobmff
 
 //@ dep callback isobmff.Reader.XMPReader
 //@   names r -> err
-//@   requires [C11] wf4(as(r, "*isobmff.box"))
-//@   modifies stream(as(r, "*isobmff.box").reader.br), as(r, "*isobmff.box").remain, as(r, "*isobmff.box").outer.remain, as(r, "*isobmff.box").outer.outer.remain, as(r, "*isobmff.box").outer.outer.outer.remain, as(r, "*isobmff.box").outer.outer.outer.outer.remain, as(r, "*isobmff.box").reader.offset
-//@   ensures remOK(as(r, "*isobmff.box")) && pos(as(r, "*isobmff.box").reader.br) >= old(pos(as(r, "*isobmff.box").reader.br)) && noInc(as(r, "*isobmff.box"))
+//@   requires [C11] wf2(as(r, "*isobmff.box"))
+//@   modifies stream(as(r, "*isobmff.box").reader.br), as(r, "*isobmff.box").remain, as(r, "*isobmff.box").outer.remain, as(r, "*isobmff.box").outer.outer.remain, as(r, "*isobmff.box").reader.offset
+//@   ensures remOK(as(r, "*isobmff.box")) && pos(as(r, "*isobmff.box").reader.br) >= old(pos(as(r, "*isobmff.box").reader.br)) && noInc(as(r, "*isobmff.box")) && charged(as(r, "*isobmff.box"))
 
 //@ dep callback isobmff.Reader.PreviewImageReader
 //@   names r h -> err
-//@   requires [C11] wf4(as(r, "*isobmff.box"))
-//@   modifies stream(as(r, "*isobmff.box").reader.br), as(r, "*isobmff.box").remain, as(r, "*isobmff.box").outer.remain, as(r, "*isobmff.box").outer.outer.remain, as(r, "*isobmff.box").outer.outer.outer.remain, as(r, "*isobmff.box").outer.outer.outer.outer.remain, as(r, "*isobmff.box").reader.offset
-//@   ensures remOK(as(r, "*isobmff.box")) && pos(as(r, "*isobmff.box").reader.br) >= old(pos(as(r, "*isobmff.box").reader.br)) && noInc(as(r, "*isobmff.box"))
+//@   requires [C11] wf2(as(r, "*isobmff.box"))
+//@   modifies stream(as(r, "*isobmff.box").reader.br), as(r, "*isobmff.box").remain, as(r, "*isobmff.box").outer.remain, as(r, "*isobmff.box").outer.outer.remain, as(r, "*isobmff.box").reader.offset
+//@   ensures remOK(as(r, "*isobmff.box")) && pos(as(r, "*isobmff.box").reader.br) >= old(pos(as(r, "*isobmff.box").reader.br)) && noInc(as(r, "*isobmff.box")) && charged(as(r, "*isobmff.box"))
 
 //@ func (*Reader).reset
 //@   props C01
